@@ -24,6 +24,7 @@ func checkC11(w *World, r *Report) {
 	r.Rule("R11.3", "probe patterns agree on both ends", 2)
 	r.Rule("R11.4", "handshake loops make progress", 8)
 	r.Rule("R11.5", "fall-back codecs survive case folding", 3)
+	r.Rule("R11.8", "the downstream fragment size recorded as working is the very value that was probed", 1)
 	r.Rule("R11.7", "the upstream fragment size is recomputed after the last change of the upstream codec", 1)
 	r.Rule("R11.6", "the committed query type passed its probe", 1)
 
@@ -488,6 +489,7 @@ func checkC11(w *World, r *Report) {
 	// ---------------------------------------------------------------- R11.3
 	c11Patterns(w, r)
 	c11DerivedMtu(w, r)
+	c11ProbedIsCommitted(w, r)
 
 	// ---------------------------------------------------------------- R11.4
 	seen := map[*ssa.Function]bool{}
@@ -866,4 +868,103 @@ func c11ChooserOK(w *World, h *ssa.Function, probeM *types.Func, byGlobal map[ty
 		return ssaFuncKey(h) + " has no return", nfall
 	}
 	return why, nfall
+}
+
+// c11ProbedIsCommitted: R11.8 — AutodetectFragmentSize returns (a constant offset of) the largest size whose
+// probe succeeded. Every non-constant value that flows into the returned variable must be the same SSA value
+// the probe was given: a conversion in between (wire bytes vs payload bytes, a codec ratio) makes the client
+// commit a size that was never verified against the path.
+func c11ProbedIsCommitted(w *World, r *Report) {
+	cdc := w.Named("internal/streams/dns", "ClientDnsConnection")
+	fn := w.SSAFunc(methodOf(cdc, "AutodetectFragmentSize"))
+	probe := methodOf(cdc, "SendFragmentSizeTest")
+	key := "method:(*streams/dns.ClientDnsConnection).AutodetectFragmentSize|probed=committed"
+	if fn == nil || probe == nil {
+		r.Undecided("R11.8", key, "-", "anchor unresolved: AutodetectFragmentSize / SendFragmentSizeTest")
+		return
+	}
+	// probed values (size argument of every probe call in the function or its helpers that return the verdict)
+	probed := map[ssa.Value]bool{}
+	var probePos []string
+	for _, g := range staticCone(fn, 1) {
+		for _, c := range callsIn(g) {
+			if sCallee(c) == probe && len(c.Common().Args) >= 2 {
+				v := c.Common().Args[1]
+				probed[v] = true
+				probePos = append(probePos, w.Pos(c.Pos()))
+				// a helper that probes its parameter: the caller's argument counts as probed
+				if prm, ok := v.(*ssa.Parameter); ok && g != fn {
+					for i, q := range g.Params {
+						if q == prm {
+							for _, c2 := range callsIn(fn) {
+								if c2.Common().StaticCallee() == g && i < len(c2.Common().Args) {
+									probed[c2.Common().Args[i]] = true
+								}
+							}
+						}
+					}
+				}
+			}
+		}
+	}
+	if len(probed) == 0 {
+		r.Undecided("R11.8", key, w.Pos(fn.Pos()), "no fragment-size probe found in the detection function")
+		return
+	}
+	// values flowing into what is returned on success
+	bad := ""
+	nflow := 0
+	seen := map[ssa.Value]bool{}
+	var flow func(v ssa.Value, d int)
+	flow = func(v ssa.Value, d int) {
+		if v == nil || seen[v] || d > 12 {
+			return
+		}
+		seen[v] = true
+		if probed[v] {
+			nflow++
+			return // the probed value itself (possibly loop-carried): what it is made of does not matter
+		}
+		switch x := v.(type) {
+		case *ssa.Const:
+			return
+		case *ssa.Phi:
+			for _, e := range x.Edges {
+				flow(e, d+1)
+			}
+			return
+		case *ssa.BinOp:
+			// max - 2 and the like: follow the non-constant operand
+			if _, isC := x.Y.(*ssa.Const); isC {
+				flow(x.X, d+1)
+				return
+			}
+			if _, isC := x.X.(*ssa.Const); isC {
+				flow(x.Y, d+1)
+				return
+			}
+		}
+		nflow++
+		ok := probed[v]
+		if !ok {
+			// the probed value may itself be a phi of the value that is committed (proposed): accept identity through phis
+			if ph, isPhi := v.(*ssa.Phi); isPhi {
+				_ = ph
+			}
+		}
+		if !ok && bad == "" {
+			bad = fmt.Sprintf("the size recorded as working (%s) is not the value handed to the probe at %v: what the client commits (and the server then uses for every fragment) was never verified against the path — with a codec ratio or a unit conversion in between, full-size fragments exceed what the path carries", v.Name(), probePos)
+		}
+	}
+	for _, b := range fn.Blocks {
+		ret, ok := b.Instrs[len(b.Instrs)-1].(*ssa.Return)
+		if !ok || len(ret.Results) != 2 {
+			continue
+		}
+		if !isConstNil(ret.Results[1]) {
+			continue
+		}
+		flow(ret.Results[0], 0)
+	}
+	r.Check(bad == "" && nflow > 0, "R11.8", key, w.Pos(fn.Pos()), fmt.Sprintf("%d non-constant value(s) flow into the returned size, each is the value that was probed", nflow), bad+mapStr(nflow == 0, "the returned size does not derive from any probed value"))
 }
